@@ -25,7 +25,12 @@ Inductive c12case :=
 (* documented: the run used one Serve call and no ServeConn, or only ServeConn (the uses for which Server.Concurrency is documented to work);
    drained: at the end every connection was finished / released and closed *)
 | CReplay (cf : cfg) (documented drained : bool) (ips : list N) (blocks : list block) (conns : list connres) (peak : Z)
-| CStress (cf : cfg) (documented : bool) (conns : list connres) (peak : Z) (peaklive : list (N * Z)) (final : obs).
+| CStress (cf : cfg) (documented : bool) (conns : list connres) (peak : Z) (peaklive : list (N * Z)) (final : obs)
+(* directed schedule on the perIPConn wrapper pool: connection 0 (address ip1) is closed through its wrapper by a third party,
+   connection 1 (ip2) arrives (recycled: it was given the same wrapper object), the goroutine of connection 0 finishes and closes
+   its connection object.  victim_closed: the net.Conn of connection 1 was closed at that moment although connection 1 was being
+   served and nobody closed it; perip_after: the per-IP map right after. *)
+| CStale (recycled victim_closed : bool) (ip1 ip2 : N) (perip_after : list (N * Z)).
 
 Fixpoint alookup (l : list (N * Z)) (ip : N) : option Z :=
   match l with
@@ -73,6 +78,11 @@ Definition corr_ok (c : c12case) : bool :=
       | None => false
       end
   | CStress _ _ _ _ _ _ => true
+  | CStale recycled victim ip1 ip2 after =>
+      match prun pinit [PAcquire ip1 None; PClose 0; PAcquire ip2 (if recycled then Some O else None); PClose 0] with
+      | Some s => Bool.eqb (closes_own s) (negb victim) && optz_eqb (pm s ip1) (alookup after ip1) && optz_eqb (pm s ip2) (alookup after ip2)
+      | None => false
+      end
   end.
 
 (* ---- the property, judged on what the implementation did ---------------------------------------- *)
@@ -101,4 +111,5 @@ Definition prop_ok (c : c12case) : bool :=
   | CStress cf documented conns peak peaklive final =>
       forallb conn_prop conns && (if documented then peak <=? effConc cf else true)
       && live_prop cf peaklive && zero_obs final
+  | CStale _ victim _ _ _ => negb victim     (* a Close made for connection 0 must not close connection 1 *)
   end.
